@@ -111,6 +111,20 @@ class FnLower:
         if self.rett != 'void': self.emit('%s _vp_retdummy;' % self.rett)
         rec = L.rec_of_method(fn)
         if rec is not None and rec['id'] in L.lambda_caps: self.caps = L.lambda_caps[rec['id']]
+        elif rec is not None and rec.get('definitionData', {}).get('isLambda'):
+            # the call operator is lowered before the function that contains the lambda expression: the capture map is a
+            # static fact of the LambdaExpr (field k <-> k-th capture initialiser)
+            le = self.idx.parent.get(rec['id'])
+            if le is not None and le.get('kind') == 'LambdaExpr':
+                inits = [c for c in le['inner'][1:] if c.get('kind') != 'CompoundStmt']
+                flds = self.idx.fields(rec)
+                if len(flds) != len(inits): self.unsupported('lambda captures (%d fields, %d initialisers)' % (len(flds), len(inits)))
+                caps = {}
+                for fk, (f, ini) in enumerate(zip(flds, inits)):
+                    i0 = self.strip_casts(ini)
+                    if i0.get('kind') != 'DeclRefExpr': self.unsupported('lambda init-capture')
+                    caps[i0['referencedDecl']['id']] = (f.get('name') or ('_c%d' % fk), L.is_ref(f['type']))
+                self.caps = caps
         if kind == 'CXXConstructorDecl':
             tags_done = False
             for c in fn.get('inner', []):
